@@ -392,7 +392,7 @@ def retry_stage(ctx, tu):
             total += 1
             want_logs = ['Unexpected exception occurred %d time(s)... retrying.' % c for (_m, c) in rec['logs']]
             if out != 'result' or logged != want_logs or len(slept) != len(hist) or any(x != rec['rd'] for x in slept):
-                ctx.violation({'kind': 'retry', 'result_ok': out == 'result', 'logs_ok': logged == want_logs},
+                ctx.beyond('Retry', {'kind': 'retry', 'result_ok': out == 'result', 'logs_ok': logged == want_logs},
                               {'failures': hist, 'retry_delay': rec['rd'], 'same_log_delay': rec['sld'],
                                'expected_logs': want_logs, 'observed_logs': logged, 'sleeps': slept, 'result': out},
                               'forever_retry_uncaught_exceptions(retry_delay=%s, same_log_delay=%s) over failures %s: logged %s, '
@@ -432,7 +432,7 @@ def time_it_stage(ctx, tu):
         n += 1
         want_out = 'KeyError' if c['raises'] else 'value'
         if out != want_out or (len(calls) == 1) != rec['ref']['logged'] or len(calls) > 1:
-            ctx.violation({'kind': 'time_it', 'logged': len(calls), 'want': rec['ref']['logged']},
+            ctx.beyond('Misc', {'kind': 'time_it', 'logged': len(calls), 'want': rec['ref']['logged']},
                           {'case': c, 'log_calls': calls, 'result': out},
                           'time_it %s: %d log call(s), result %s; specification logged=%s' % (c, len(calls), out, rec['ref']['logged']))
     ctx.cov['evaluations'] += n
